@@ -34,7 +34,10 @@ def run_one(name, patch, props, tier="quick"):
         for p in props:
             env = dict(os.environ, FLODYM_REPO=wt, VERIF_OUT_DIR=out)
             env.pop("PYTHONHASHSEED", None)
-            r = subprocess.run([os.path.join(VERIF, "check"), p, "--tier", tier], capture_output=True, text=True, env=env, cwd=VERIF)
+            cmd = [os.path.join(VERIF, "check"), p, "--tier", tier]
+            if "--jobs" in sys.argv:
+                cmd += ["--workers", str(max(2, 16 // int(sys.argv[sys.argv.index("--jobs") + 1])))]
+            r = subprocess.run(cmd, capture_output=True, text=True, env=env, cwd=VERIF)
             lines = r.stdout.splitlines()
             clauses = sorted({l.strip().split()[0] for l in lines if l.strip().startswith("clause=")})
             res[p] = {"exit": r.returncode, "clauses": clauses}
@@ -45,7 +48,7 @@ def run_one(name, patch, props, tier="quick"):
 
 
 def main():
-    only = [a for a in sys.argv[1:] if not a.startswith("--")]
+    only = [a for k, a in enumerate(sys.argv[1:]) if not a.startswith("--") and sys.argv[k] != "--jobs"]
     jobs = []
     sd = os.path.join(VERIF, "seeded")
     for name in sorted(os.listdir(sd)):
@@ -58,10 +61,12 @@ def main():
     jobs = [j if len(j) == 4 else j + ("flagged",) for j in jobs]
     missed = 0
     table = []
-    for name, patch, props, expect in jobs:
-        if only and not any(o in name for o in only):
-            continue
-        res = run_one(name, patch, props)
+    jobs = [j for j in jobs if not only or any(o in j[0] for o in only)]
+    njobs = int(sys.argv[sys.argv.index("--jobs") + 1]) if "--jobs" in sys.argv else 1
+    import concurrent.futures as cf
+    with cf.ThreadPoolExecutor(max_workers=njobs) as pool:
+        results = list(pool.map(lambda j: run_one(j[0], j[1], j[2]), jobs))
+    for (name, patch, props, expect), res in zip(jobs, results):
         if "error" in res:
             print(f"{name}: ERROR {res['error']}", flush=True)
             missed += 1
